@@ -13,7 +13,7 @@ POLICIES = ["pct", "starve", "starve", "yield", "yield", "yield", "random", "rr"
 def gen_session(rng, quick):
     """returns (workloads, steps, sched, family)"""
     fam = rng.choice(["same_gtf", "same_gtf", "diff_gtf", "adopt_rebuild", "mixed_flags", "same_basename", "shared_genedb_output",
-                      "peer_killed"])
+                      "peer_killed", "deleted_owner"])
     n = rng.choice([2, 2, 3] if quick else [2, 2, 3, 4])
     w0 = dict(TINY, seed=rng.randrange(1 << 20))
     w1 = dict(TINY, seed=rng.randrange(1 << 20), genes_per_chr=3)
@@ -48,6 +48,12 @@ def gen_session(rng, quick):
             workloads.append({"spec": w1})
         steps.append({"run": [{"wl": i % len(workloads), "opts": opts(), "out": names[i]} for i in range(max(2, n))],
                       "fault": {"kind": "kill_actor", "index": rng.randrange(4, 110), "phase": rng.choice(["before", "after"])}})
+    elif fam == "deleted_owner":
+        # an earlier run registered its conversion in the cache, then its database (the whole result folder, typically) was
+        # deleted; the runs that look the annotation up now must convert for themselves
+        steps.append({"run": [{"wl": 0, "opts": {}, "out": "P"}], "sched": {"policy": "serial", "seed": 0}})
+        steps.append({"op": "delete_db", "out": "P"})
+        steps.append({"run": [{"wl": 0, "opts": opts(), "out": names[i]} for i in range(max(2, n - 1))]})
     elif fam == "mixed_flags":
         steps.append({"run": [{"wl": 0, "opts": opts(), "out": names[i]} for i in range(n)]})
     else:
@@ -88,7 +94,8 @@ def judge(session_res, golden, workloads, steps):
         if ar["exit"] != 0:
             out.append(("a:exit0", {"symptom": "exit%s:%s" % (ar["exit"], ar.get("failure_site")),
                                     "clean_start": bool((a.get("opts") or {}).get("clean_start")),
-                                    "adopted_modified": bool(ar.get("adopted_modified"))},
+                                    "adopted_modified": bool(ar.get("adopted_modified")),
+                                    "foreign_db_exists_checked": bool(ar.get("foreign_db_exists_checked"))},
                         "actor %s exits %s: %s\n%s" % (a["out"], ar["exit"], ar.get("failure_site"), (ar.get("log_tail") or "")[-400:])))
             continue
         g = golden.get(key)
